@@ -315,6 +315,45 @@ def check_chain(ctx: Ctx, c: Dict[str, Any], variant: int = 0) -> None:
             except Exception as ex:
                 ctx.violation(dict(**sigc, attr="conv", exc=type(ex).__name__), f"{kind}: conv({name_}, padding={pad_c}) raised {type(ex).__name__}: {str(ex)[:120]}", c)
                 return
+    # (3e) resolution pyramid of the ORIGINAL image(s): every level is an image on the grid of that level of Grid.pyramid() (whose geometry C03 decides),
+    # with data of that grid's shape holding the ramp inside the original field of view; sub-ranges (start, end) are the same levels
+    if len(hist) == 1 and (variant // 3) % 4 == 0 and min(base.size()) >= 4:
+        sigp = dict(**sig0, op="pyramid")
+        srcs0 = [base] if kind != "batch2" else [base, base2]
+        try:
+            L_ = 2  # (levels with size / 2^level >= 2 only, as the property quantifies: the base grids have 4..8 samples per axis)
+            pyr = x0.pyramid(L_, sigma=0)
+            if sorted(pyr.keys()) != list(range(L_)):
+                ctx.violation(dict(**sigp, attr="levels"), f"{kind}: pyramid({L_}) returns levels {sorted(pyr.keys())}", c)
+                return
+            gp = [g_.pyramid(L_) for g_ in srcs0]
+            for lv in range(L_):
+                yl = pyr[lv]
+                gls = [yl.grid()] if kind == "image" else list(yl.grids())
+                dl = yl.tensor() if kind != "image" else yl.tensor().unsqueeze(0)
+                for it, (g0_, gl) in enumerate(zip(srcs0, gls)):
+                    eg = gp[it][lv]
+                    if (list(gl.size()) != list(eg.size()) or max_err(gl.center(), eg.center()) > 1e-4 or max_err(gl.spacing(), eg.spacing()) > 1e-5 or max_err(gl.direction(), eg.direction()) > 1e-6
+                            or tuple(gl.shape) != tuple(dl.shape[2:])):
+                        ctx.violation(dict(**sigp, attr="pyramid_grid", level=lv, item=it), f"{kind}: pyramid level {lv} carries grid {gl!r} with data shape {tuple(dl.shape[2:])}; Grid.pyramid gives {eg!r}", c)
+                        return
+                    w = gl.index_to_world(gl.coords(normalize=False).to(torch.float32)).to(torch.float64).reshape(-1, D)
+                    m = inside_hull(g0_, w, margin_world=1.01 * float(gl.spacing().max()) * (1 if lv else 0), margin_index=0.01)
+                    if int(m.sum()) == 0:
+                        continue
+                    expv = w @ a + b
+                    err = float((dl[it, 0].reshape(-1).to(torch.float64) - expv)[m].abs().max())
+                    if err > 3e-4 * max(1.0, float(expv.abs().max())):
+                        ctx.violation(dict(**sigp, attr="pyramid_data", level=lv, item=it), f"{kind}: pyramid level {lv} is off the ramp by {err:.3g} on {int(m.sum())} samples inside the field of view", c)
+                        return
+            for (st_, en_), want in (((1, -1), [1]), ((-1, -1), [1]), ((0, 0), [0]), ((-2, 1), [0, 1]), ((1, 0), [])):
+                sub = x0.pyramid(L_, start=st_, end=en_, sigma=0)
+                if sorted(sub.keys()) != want or any(max_err(sub[k_].tensor(), pyr[k_].tensor()) > 1e-6 for k_ in want):
+                    ctx.violation(dict(**sigp, attr="pyramid_range", start=st_, end=en_), f"{kind}: pyramid({L_}, start={st_}, end={en_}) returns levels {sorted(sub.keys())} / other data than the full pyramid's levels {want}", c)
+                    return
+        except Exception as ex:
+            ctx.violation(dict(**sigp, attr="pyramid", exc=type(ex).__name__), f"{kind}: pyramid raised {type(ex).__name__}: {str(ex)[:120]}", c)
+            return
     # (4) the probes computed exactly by the specification (first item)
     g = grids[0]
     for p in c["probes"]:
